@@ -451,7 +451,8 @@ def real_size(case):
     from ghedesigner.enums import TimestepType
     from ghedesigner.ground_heat_exchangers import GHE
 
-    method_name, lo, hi, r_hyb, r_hr, slope = case
+    method_name, lo, hi, r_hyb, r_hr, slope = case[:6]
+    cold_root, cold_slope = (case[6], case[7]) if len(case) > 6 else (None, 0.0)
     g = GHE.__new__(GHE)
     g.bhe = types.SimpleNamespace(b=types.SimpleNamespace(H=96.0))
     g.sim_params = types.SimpleNamespace(min_height=lo, max_height=hi, max_EFT_allowable=35.0, min_EFT_allowable=5.0)
@@ -462,8 +463,11 @@ def real_size(case):
         root = r_hyb if method == TimestepType.HYBRID else r_hr
         excess = slope * (root - h)          # decreasing in the height, zero at the root
         calls.append((float(h), method.name))
-        g.hp_eft = [35.0 + excess, 20.0]
-        return 35.0 + excess, 20.0
+        # the lower limit has its own curve (root cold_root): the excess the tool must solve on is
+        # the larger of the two at every height
+        mn = 20.0 if cold_root is None else 5.0 - cold_slope * (cold_root - h)
+        g.hp_eft = [35.0 + excess, mn]
+        return 35.0 + excess, mn
 
     g.simulate = simulate
     try:
@@ -479,18 +483,26 @@ def size_cases(rng, n):
         lo = rng.choice([30.0, 60.0, 100.0])
         hi = lo + rng.choice([0.5, 30.0, 75.0, 100.0])
         span = hi - lo
-        out.append((rng.choice(["HYBRID", "HOURLY"]), lo, hi, lo + rng.uniform(-0.5, 1.5) * span, lo + rng.uniform(-0.5, 1.5) * span, rng.uniform(0.01, 2.0)))
+        c = (rng.choice(["HYBRID", "HOURLY"]), lo, hi, lo + rng.uniform(-0.5, 1.5) * span, lo + rng.uniform(-0.5, 1.5) * span, rng.uniform(0.01, 2.0))
+        if rng.random() < 0.5:
+            # both limits in play: the governing one may change between the middle of the window and the root
+            c = c + (lo + rng.uniform(-0.5, 1.5) * span, rng.uniform(0.01, 2.0))
+        out.append(c)
     return out
 
 
 def check_size_predicate(ctx, case, res):
-    method_name, lo, hi, r_hyb, r_hr, slope = case
+    method_name, lo, hi, r_hyb, r_hr, slope = case[:6]
     H, last_h, last_m, n, methods = res
     rep = {"method": method_name, "min_height": lo, "max_height": hi, "hybrid_root": r_hyb, "hourly_root": r_hr, "slope": slope, "result": res}
+    if len(case) > 6:
+        rep.update(lower_limit_root=case[6], lower_limit_slope=case[7])
     if isinstance(H, str):
         ctx.finding("size-raises", f"GHE.size({method_name}) raised {H}", rep)
         return
     root = r_hyb if method_name == "HYBRID" else r_hr
+    if len(case) > 6:
+        root = max(root, case[6])        # both excess curves decrease with the height: their maximum is zero at the larger root
     want = min(max(root, lo), hi)
     tol = 2 * (1e-6 + 1e-6 * hi) + 1e-9
     if abs(H - want) > tol:
